@@ -13,16 +13,14 @@ open Borno
 inductive PR (α : Type)
   | ok (a : α) (rest : List Token)
   | err (d : Diag)
-  | fuel
-  | panic
+  | abn (a : Abn)
   deriving Repr, Inhabited
 
 /-- result of a statement-level parse; `ds` = diagnostics in order (lenient `consume`s report and go on) -/
 inductive SR (α : Type)
   | ok (a : α) (rest : List Token) (ds : List Diag)
   | err (ds : List Diag)
-  | fuel
-  | panic
+  | abn (a : Abn)
   deriving Repr, Inhabited
 
 def errAt (t : Token) (msg : List Char) : Diag :=
@@ -54,12 +52,12 @@ mutual
 
 /-- `expression` = `assignment` -/
 def assignment : Nat → List Token → PR Expr
-  | 0, _ => .fuel
+  | 0, _ => .abn .fuel
   | f + 1, ts =>
     match binLevel f 0 ts with
     | .ok e r =>
       (match r with
-       | [] => .panic
+       | [] => .abn .panic
        | t :: r1 =>
          if t.tt = .EQUAL then
            (match assignment f r1 with
@@ -70,96 +68,88 @@ def assignment : Nat → List Token → PR Expr
                | .propAccess o p _ => .ok (.propAssign o p v t.line) r2
                | _ => .err (errAt t "Invalid assignment target.".toList))
             | .err d => .err d
-            | .fuel => .fuel
-            | .panic => .panic)
+            | .abn x => .abn x)
          else .ok e r)
     | .err d => .err d
-    | .fuel => .fuel
-    | .panic => .panic
+    | .abn x => .abn x
 
 /-- level `k` of the ladder (`k = nLevels` is `unary`) -/
 def binLevel : Nat → Nat → List Token → PR Expr
-  | 0, _, _ => .fuel
+  | 0, _, _ => .abn .fuel
   | f + 1, k, ts =>
     if k < nLevels then
       match binLevel f (k + 1) ts with
       | .ok l r => binLoop f k l r
       | .err d => .err d
-      | .fuel => .fuel
-      | .panic => .panic
+      | .abn x => .abn x
     else unary f ts
 
 /-- `for p.match(ops…) { right := next(); expr = node(expr, op, right) }` -/
 def binLoop : Nat → Nat → Expr → List Token → PR Expr
-  | 0, _, _, _ => .fuel
+  | 0, _, _, _ => .abn .fuel
   | f + 1, k, l, ts =>
     match ts with
-    | [] => .panic
+    | [] => .abn .panic
     | t :: r =>
       if (levelOps k).contains t.tt then
         match binLevel f (k + 1) r with
         | .ok right r2 => binLoop f k (mkBin k l t right) r2
         | .err d => .err d
-        | .fuel => .fuel
-        | .panic => .panic
+        | .abn x => .abn x
       else .ok l ts
 
 def unary : Nat → List Token → PR Expr
-  | 0, _ => .fuel
+  | 0, _ => .abn .fuel
   | f + 1, ts =>
     match ts with
-    | [] => .panic
+    | [] => .abn .panic
     | t :: r =>
       if Expect.unaryOps.contains t.tt then
         match unary f r with
         | .ok e r2 => .ok (.unary t.tt t.line e) r2
         | .err d => .err d
-        | .fuel => .fuel
-        | .panic => .panic
+        | .abn x => .abn x
       else
         match primary f ts with
         | .ok e r2 => suffix f e r2
         | .err d => .err d
-        | .fuel => .fuel
-        | .panic => .panic
+        | .abn x => .abn x
 
 /-- the postfix loop of `call` -/
 def suffix : Nat → Expr → List Token → PR Expr
-  | 0, _, _ => .fuel
+  | 0, _, _ => .abn .fuel
   | f + 1, e, ts =>
     match ts with
-    | [] => .panic
+    | [] => .abn .panic
     | t :: r =>
       if t.tt = .LEFT_PAREN then
         (match r with
-         | [] => .panic
+         | [] => .abn .panic
          | t2 :: r2 =>
            if t2.tt = .RIGHT_PAREN then suffix f (.call e t2.line []) r2
            else
              match exprList f r with
              | .ok args r3 =>
                (match r3 with
-                | [] => .panic
+                | [] => .abn .panic
                 | t3 :: r4 =>
                   if t3.tt = .RIGHT_PAREN then suffix f (.call e t3.line args) r4
                   else .err (errAt t3 "Expect ')' after arguments.".toList))
              | .err d => .err d
-             | .fuel => .fuel
-             | .panic => .panic)
+             | .abn x => .abn x)
       else if t.tt = .LEFT_BRACKET then
         (match assignment f r with
          | .ok i r2 =>
            (match r2 with
-            | [] => .panic
+            | [] => .abn .panic
             | t2 :: r3 =>
               if t2.tt = .RIGHT_BRACKET then suffix f (.arrayAccess e i t2.line) r3
               else .err (errAt t2 "Expect ']' after array index.".toList))
          | .err d => .err d
-         | .fuel => .fuel
-         | .panic => .panic)
+         | .abn x => .abn x)
       else if t.tt = .DOT then
         (match r with
-         | [] => .panic
+         | [] => .abn .panic
          | t2 :: r2 =>
            if t2.tt = .IDENTIFIER then suffix f (.propAccess e t2.lexeme t2.line) r2
            else .err (errAt t2 "Expect property name after '.'.".toList))
@@ -167,60 +157,56 @@ def suffix : Nat → Expr → List Token → PR Expr
 
 /-- `expression ("," expression)*` -/
 def exprList : Nat → List Token → PR (List Expr)
-  | 0, _ => .fuel
+  | 0, _ => .abn .fuel
   | f + 1, ts =>
     match assignment f ts with
     | .ok a r =>
       (match r with
-       | [] => .panic
+       | [] => .abn .panic
        | t :: r2 =>
          if t.tt = .COMMA then
            match exprList f r2 with
            | .ok rest r3 => .ok (a :: rest) r3
            | .err d => .err d
-           | .fuel => .fuel
-           | .panic => .panic
+           | .abn x => .abn x
          else .ok [a] r)
     | .err d => .err d
-    | .fuel => .fuel
-    | .panic => .panic
+    | .abn x => .abn x
 
 /-- the loop of `objectLiteral` (a trailing comma is accepted) -/
 def objProps : Nat → List Token → PR (List (Name × Expr))
-  | 0, _ => .fuel
+  | 0, _ => .abn .fuel
   | f + 1, ts =>
     match ts with
-    | [] => .panic
+    | [] => .abn .panic
     | t :: r =>
       if t.tt = .RIGHT_BRACE || t.tt = .EOF then .ok [] ts
       else if t.tt ≠ .IDENTIFIER then .err (errAt t "Expect property name. Must be a string.".toList)
       else
         match r with
-        | [] => .panic
+        | [] => .abn .panic
         | c :: r1 =>
           if c.tt ≠ .COLON then .err (errAt c "Expect ':' after property name.".toList)
           else
             match assignment f r1 with
             | .ok v r2 =>
               (match r2 with
-               | [] => .panic
+               | [] => .abn .panic
                | t2 :: r3 =>
                  if t2.tt = .COMMA then
                    match objProps f r3 with
                    | .ok ps r4 => .ok ((t.lexeme, v) :: ps) r4
                    | .err d => .err d
-                   | .fuel => .fuel
-                   | .panic => .panic
+                   | .abn x => .abn x
                  else .ok [(t.lexeme, v)] r2)
             | .err d => .err d
-            | .fuel => .fuel
-            | .panic => .panic
+            | .abn x => .abn x
 
 def primary : Nat → List Token → PR Expr
-  | 0, _ => .fuel
+  | 0, _ => .abn .fuel
   | f + 1, ts =>
     match ts with
-    | [] => .panic
+    | [] => .abn .panic
     | t :: r =>
       match t.tt with
       | .FALSE => .ok (.literal (.bool false) t.line) r
@@ -233,40 +219,37 @@ def primary : Nat → List Token → PR Expr
         (match assignment f r with
          | .ok e r2 =>
            (match r2 with
-            | [] => .panic
+            | [] => .abn .panic
             | t2 :: r3 =>
               if t2.tt = .RIGHT_PAREN then .ok (.grouping e t2.line) r3
               else .err (errAt t2 "Expect ')' after expression.".toList))
          | .err d => .err d
-         | .fuel => .fuel
-         | .panic => .panic)
+         | .abn x => .abn x)
       | .LEFT_BRACKET =>
         (match r with
-         | [] => .panic
+         | [] => .abn .panic
          | t2 :: r2 =>
            if t2.tt = .RIGHT_BRACKET then .ok (.arrayLit []) r2
            else
              match exprList f r with
              | .ok es r3 =>
                (match r3 with
-                | [] => .panic
+                | [] => .abn .panic
                 | t3 :: r4 =>
                   if t3.tt = .RIGHT_BRACKET then .ok (.arrayLit es) r4
                   else .err (errAt t3 "Expect ']' after array elements.".toList))
              | .err d => .err d
-             | .fuel => .fuel
-             | .panic => .panic)
+             | .abn x => .abn x)
       | .LEFT_BRACE =>
         (match objProps f r with
          | .ok ps r2 =>
            (match r2 with
-            | [] => .panic
+            | [] => .abn .panic
             | t2 :: r3 =>
               if t2.tt = .RIGHT_BRACE then .ok (.objectLit ps) r3
               else .err (errAt t2 "Expect '}' after object literal.".toList))
          | .err d => .err d
-         | .fuel => .fuel
-         | .panic => .panic)
+         | .abn x => .abn x)
       | _ => .err (errAt t "Unexpected token. Expect expression.".toList)
 
 end
@@ -285,10 +268,10 @@ def isLiteralInit : Option Expr → Bool
 
 /-- the loop of `varDeclaration` -/
 def varDecls : Nat → Nat → List Token → PR (List VarDecl)
-  | 0, _, _ => .fuel
+  | 0, _, _ => .abn .fuel
   | f + 1, initialLine, ts =>
     match ts with
-    | [] => .panic
+    | [] => .abn .panic
     | t :: r =>
       if t.tt ≠ .IDENTIFIER then .err (errAt t "Expect variable name.".toList)
       else if isReserved t.lexeme then .err (errAt t (reservedMsg t.lexeme "variable"))
@@ -296,19 +279,18 @@ def varDecls : Nat → Nat → List Token → PR (List VarDecl)
         -- optional initializer
         let afterInit : PR (Option Expr) :=
           match r with
-          | [] => .panic
+          | [] => .abn .panic
           | e :: r1 =>
             if e.tt = .EQUAL then
               match assignment f r1 with
               | .ok v r2 => .ok (some v) r2
               | .err d => .err d
-              | .fuel => .fuel
-              | .panic => .panic
+              | .abn x => .abn x
             else .ok none r
         match afterInit with
         | .ok init r2 =>
           (match r2 with
-           | [] => .panic
+           | [] => .abn .panic
            | p :: r3 =>
              if !isLiteralInit init && p.line ≠ initialLine then
                .err (errAt p "Expect ';' before newline.".toList)
@@ -316,22 +298,20 @@ def varDecls : Nat → Nat → List Token → PR (List VarDecl)
                match varDecls f initialLine r3 with
                | .ok rest r4 => .ok (⟨t.lexeme, t.line, init⟩ :: rest) r4
                | .err d => .err d
-               | .fuel => .fuel
-               | .panic => .panic
+               | .abn x => .abn x
              else .ok [⟨t.lexeme, t.line, init⟩] r2)
         | .err d => .err d
-        | .fuel => .fuel
-        | .panic => .panic
+        | .abn x => .abn x
 
 /-- `varDeclaration` (after the `ধরি` token) -/
 def varDeclaration (f : Nat) (ts : List Token) : SR Stmt :=
   match ts with
-  | [] => .panic
+  | [] => .abn .panic
   | t0 :: _ =>
     match varDecls f t0.line ts with
     | .ok ds r =>
       (match r with
-       | [] => .panic
+       | [] => .abn .panic
        | s :: r2 =>
          if s.tt = .SEMICOLON then
            match ds with
@@ -339,8 +319,7 @@ def varDeclaration (f : Nat) (ts : List Token) : SR Stmt :=
            | _ => .ok (.varList ds) r2 []
          else .err [errAt s "Expect ';' after variable declaration.".toList])
     | .err d => .err [d]
-    | .fuel => .fuel
-    | .panic => .panic
+    | .abn x => .abn x
 
 /-- lenient `p.consume(tt, msg)`: on a mismatch report and stay -/
 def lenient (tt : TT) (msg : String) (ts : List Token) : Option (List Token × List Diag) :=
@@ -353,56 +332,54 @@ def exprThenSemi (f : Nat) (mk : Expr → Stmt) (ts : List Token) : SR Stmt :=
   match assignment f ts with
   | .ok e r =>
     (match lenient .SEMICOLON "Expect ';' after value." r with
-     | none => .panic
+     | none => .abn .panic
      | some (r2, ds) => .ok (mk e) r2 ds)
   | .err d => .err [d]
-  | .fuel => .fuel
-  | .panic => .panic
+  | .abn x => .abn x
 
 /-- parameter list loop of `function` -/
 def params : Nat → Nat → List Token → PR (List Name)
-  | 0, _, _ => .fuel
+  | 0, _, _ => .abn .fuel
   | f + 1, n, ts =>
     match ts with
-    | [] => .panic
+    | [] => .abn .panic
     | t :: r =>
       if n ≥ Expect.maxParams then .err (errAt t "Can't have more than 255 parameters.".toList)
       else if t.tt ≠ .IDENTIFIER then .err (errAt t "Expect parameter name.".toList)
       else
         match r with
-        | [] => .panic
+        | [] => .abn .panic
         | c :: r2 =>
           if c.tt = .COMMA then
             match params f (n + 1) r2 with
             | .ok rest r3 => .ok (t.lexeme :: rest) r3
             | .err d => .err d
-            | .fuel => .fuel
-            | .panic => .panic
+            | .abn x => .abn x
           else .ok [t.lexeme] r
 
 /-- strict consume helper for statement level -/
 def expectTok (tt : TT) (msg : String) (ts : List Token) : PR Unit :=
   match ts with
-  | [] => .panic
+  | [] => .abn .panic
   | t :: r => if t.tt = tt then .ok () r else .err (errAt t msg.toList)
 
 mutual
 
 def declaration : Nat → List Token → SR Stmt
-  | 0, _ => .fuel
+  | 0, _ => .abn .fuel
   | f + 1, ts =>
     match ts with
-    | [] => .panic
+    | [] => .abn .panic
     | t :: r =>
       if t.tt = .FUN then function f r
       else if t.tt = .VAR then varDeclaration f r
       else statement f ts
 
 def function : Nat → List Token → SR Stmt
-  | 0, _ => .fuel
+  | 0, _ => .abn .fuel
   | f + 1, ts =>
     match ts with
-    | [] => .panic
+    | [] => .abn .panic
     | t :: r =>
       if t.tt ≠ .IDENTIFIER then .err [errAt t "Expect function name.".toList]
       else if isReserved t.lexeme then .err [errAt t (reservedMsg t.lexeme "function")]
@@ -411,7 +388,7 @@ def function : Nat → List Token → SR Stmt
         | .ok _ r1 =>
           let ps : PR (List Name) :=
             match r1 with
-            | [] => .panic
+            | [] => .abn .panic
             | p :: _ => if p.tt = .RIGHT_PAREN then .ok [] r1 else params f 0 r1
           (match ps with
            | .ok names r2 =>
@@ -422,27 +399,22 @@ def function : Nat → List Token → SR Stmt
                    (match block f r4 with
                     | .ok body r5 ds => .ok (.funS t.lexeme names body) r5 ds
                     | .err ds => .err ds
-                    | .fuel => .fuel
-                    | .panic => .panic)
+                    | .abn x => .abn x)
                  | .err d => .err [d]
-                 | .fuel => .fuel
-                 | .panic => .panic)
+                 | .abn x => .abn x)
               | .err d => .err [d]
-              | .fuel => .fuel
-              | .panic => .panic)
+              | .abn x => .abn x)
            | .err d => .err [d]
-           | .fuel => .fuel
-           | .panic => .panic)
+           | .abn x => .abn x)
         | .err d => .err [d]
-        | .fuel => .fuel
-        | .panic => .panic
+        | .abn x => .abn x
 
 /-- `block` (after `{`): declarations up to `}` or EOF, then a lenient `}` -/
 def block : Nat → List Token → SR (List Stmt)
-  | 0, _ => .fuel
+  | 0, _ => .abn .fuel
   | f + 1, ts =>
     match ts with
-    | [] => .panic
+    | [] => .abn .panic
     | t :: r =>
       if t.tt = .RIGHT_BRACE then .ok [] r []
       else if t.tt = .EOF then .ok [] ts [errAt t "Expect '}' after block.".toList]
@@ -452,17 +424,15 @@ def block : Nat → List Token → SR (List Stmt)
           (match block f r1 with
            | .ok ss r2 ds2 => .ok (s :: ss) r2 (ds1 ++ ds2)
            | .err ds2 => .err (ds1 ++ ds2)
-           | .fuel => .fuel
-           | .panic => .panic)
+           | .abn x => .abn x)
         | .err ds => .err ds
-        | .fuel => .fuel
-        | .panic => .panic
+        | .abn x => .abn x
 
 def statement : Nat → List Token → SR Stmt
-  | 0, _ => .fuel
+  | 0, _ => .abn .fuel
   | f + 1, ts =>
     match ts with
-    | [] => .panic
+    | [] => .abn .panic
     | t :: r =>
       match t.tt with
       | .IF =>
@@ -475,27 +445,22 @@ def statement : Nat → List Token → SR Stmt
                  (match statement f r3 with
                   | .ok th r4 ds1 =>
                     (match r4 with
-                     | [] => .panic
+                     | [] => .abn .panic
                      | e :: r5 =>
                        if e.tt = .ELSE then
                          match statement f r5 with
                          | .ok el r6 ds2 => .ok (.ifS c th (some el)) r6 (ds1 ++ ds2)
                          | .err ds2 => .err (ds1 ++ ds2)
-                         | .fuel => .fuel
-                         | .panic => .panic
+                         | .abn x => .abn x
                        else .ok (.ifS c th none) r4 ds1)
                   | .err ds => .err ds
-                  | .fuel => .fuel
-                  | .panic => .panic)
+                  | .abn x => .abn x)
                | .err d => .err [d]
-               | .fuel => .fuel
-               | .panic => .panic)
+               | .abn x => .abn x)
             | .err d => .err [d]
-            | .fuel => .fuel
-            | .panic => .panic)
+            | .abn x => .abn x)
          | .err d => .err [d]
-         | .fuel => .fuel
-         | .panic => .panic)
+         | .abn x => .abn x)
       | .WHILE =>
         (match expectTok .LEFT_PAREN "Expect '(' after 'while'." r with
          | .ok _ r1 =>
@@ -506,67 +471,59 @@ def statement : Nat → List Token → SR Stmt
                  (match statement f r3 with
                   | .ok b r4 ds => .ok (.whileS c b) r4 ds
                   | .err ds => .err ds
-                  | .fuel => .fuel
-                  | .panic => .panic)
+                  | .abn x => .abn x)
                | .err d => .err [d]
-               | .fuel => .fuel
-               | .panic => .panic)
+               | .abn x => .abn x)
             | .err d => .err [d]
-            | .fuel => .fuel
-            | .panic => .panic)
+            | .abn x => .abn x)
          | .err d => .err [d]
-         | .fuel => .fuel
-         | .panic => .panic)
+         | .abn x => .abn x)
       | .FOR =>
         (match expectTok .LEFT_PAREN "Expect '(' after 'for'." r with
          | .ok _ r1 =>
            -- initializer
            let ini : SR (Option Stmt) :=
              match r1 with
-             | [] => .panic
+             | [] => .abn .panic
              | i :: r2 =>
                if i.tt = .SEMICOLON then .ok none r2 []
                else if i.tt = .VAR then
                  match varDeclaration f r2 with
                  | .ok s r3 ds => .ok (some s) r3 ds
                  | .err ds => .err ds
-                 | .fuel => .fuel
-                 | .panic => .panic
+                 | .abn x => .abn x
                else
                  match exprThenSemi f .expr r1 with
                  | .ok s r3 ds => .ok (some s) r3 ds
                  | .err ds => .err ds
-                 | .fuel => .fuel
-                 | .panic => .panic
+                 | .abn x => .abn x
            (match ini with
             | .ok init r3 ds0 =>
               -- condition
               let cnd : PR (Option Expr) :=
                 match r3 with
-                | [] => .panic
+                | [] => .abn .panic
                 | c :: _ =>
                   if c.tt = .SEMICOLON then .ok none r3
                   else
                     match assignment f r3 with
                     | .ok e r4 => .ok (some e) r4
                     | .err d => .err d
-                    | .fuel => .fuel
-                    | .panic => .panic
+                    | .abn x => .abn x
               (match cnd with
                | .ok cond r4 =>
                  (match expectTok .SEMICOLON "Expect ';' after loop condition." r4 with
                   | .ok _ r5 =>
                     let inc : PR (Option Expr) :=
                       match r5 with
-                      | [] => .panic
+                      | [] => .abn .panic
                       | c :: _ =>
                         if c.tt = .RIGHT_PAREN then .ok none r5
                         else
                           match assignment f r5 with
                           | .ok e r6 => .ok (some e) r6
                           | .err d => .err d
-                          | .fuel => .fuel
-                          | .panic => .panic
+                          | .abn x => .abn x
                     (match inc with
                      | .ok incr r6 =>
                        (match expectTok .RIGHT_PAREN "Expect ')' after for clauses." r6 with
@@ -575,30 +532,23 @@ def statement : Nat → List Token → SR Stmt
                            | .ok body r8 ds1 =>
                              .ok (.forS init (cond.getD (.literal (.bool true) 0)) incr body) r8 (ds0 ++ ds1)
                            | .err ds1 => .err (ds0 ++ ds1)
-                           | .fuel => .fuel
-                           | .panic => .panic)
+                           | .abn x => .abn x)
                         | .err d => .err (ds0 ++ [d])
-                        | .fuel => .fuel
-                        | .panic => .panic)
+                        | .abn x => .abn x)
                      | .err d => .err (ds0 ++ [d])
-                     | .fuel => .fuel
-                     | .panic => .panic)
+                     | .abn x => .abn x)
                   | .err d => .err (ds0 ++ [d])
-                  | .fuel => .fuel
-                  | .panic => .panic)
+                  | .abn x => .abn x)
                | .err d => .err (ds0 ++ [d])
-               | .fuel => .fuel
-               | .panic => .panic)
+               | .abn x => .abn x)
             | .err ds => .err ds
-            | .fuel => .fuel
-            | .panic => .panic)
+            | .abn x => .abn x)
          | .err d => .err [d]
-         | .fuel => .fuel
-         | .panic => .panic)
+         | .abn x => .abn x)
       | .PRINT => exprThenSemi f .print r
       | .RETURN =>
         (match r with
-         | [] => .panic
+         | [] => .abn .panic
          | s :: r1 =>
            if s.tt = .SEMICOLON then .ok (.returnS t.line none) r1 []
            else
@@ -607,20 +557,18 @@ def statement : Nat → List Token → SR Stmt
                (match expectTok .SEMICOLON "Expect ';' after return value." r2 with
                 | .ok _ r3 => .ok (.returnS t.line (some v)) r3 []
                 | .err d => .err [d]
-                | .fuel => .fuel
-                | .panic => .panic)
+                | .abn x => .abn x)
              | .err d => .err [d]
-             | .fuel => .fuel
-             | .panic => .panic)
+             | .abn x => .abn x)
       | .BREAK =>
         (match r with
-         | [] => .panic
+         | [] => .abn .panic
          | s :: r1 =>
            if s.tt = .SEMICOLON then .ok (.breakS s.line) r1 []
            else .err [errAt s "Expected ; after break.".toList])
       | .CONTINUE =>
         (match r with
-         | [] => .panic
+         | [] => .abn .panic
          | s :: r1 =>
            if s.tt = .SEMICOLON then .ok (.continueS s.line) r1 []
            else .err [errAt s "Expected ; after continue.".toList])
@@ -628,18 +576,17 @@ def statement : Nat → List Token → SR Stmt
         (match block f r with
          | .ok ss r1 ds => .ok (.block ss) r1 ds
          | .err ds => .err ds
-         | .fuel => .fuel
-         | .panic => .panic)
+         | .abn x => .abn x)
       | _ => exprThenSemi f .expr ts
 
 end
 
 /-- `Parse`: declarations until EOF; the first error return aborts -/
 def program : Nat → List Token → SR (List Stmt)
-  | 0, _ => .fuel
+  | 0, _ => .abn .fuel
   | f + 1, ts =>
     match ts with
-    | [] => .panic
+    | [] => .abn .panic
     | t :: _ =>
       if t.tt = .EOF then .ok [] ts []
       else
@@ -648,11 +595,9 @@ def program : Nat → List Token → SR (List Stmt)
           (match program f r with
            | .ok ss r2 ds2 => .ok (s :: ss) r2 (ds1 ++ ds2)
            | .err ds2 => .err (ds1 ++ ds2)
-           | .fuel => .fuel
-           | .panic => .panic)
+           | .abn x => .abn x)
         | .err ds => .err ds
-        | .fuel => .fuel
-        | .panic => .panic
+        | .abn x => .abn x
 
 def fuelFor (ts : List Token) : Nat := 40 * (ts.length + 2)
 
